@@ -53,7 +53,7 @@ def setup() -> None:
 
 
 def budget(tier: str) -> int:
-    return 2500 if tier == "quick" else 40000
+    return 2500 if tier == "quick" else 150000
 
 
 # ---------------------------------------------------------------------------
